@@ -118,6 +118,94 @@ def native_run(name, conc, notes):
             "detail": "no failing cancellation point among the first 40 event-loop steps of the simulated run"}
 
 
+def native_register(name, conc, notes):
+    """the real register_sync_group against a real, empty program array of
+    this kernel (the group's program is a stand-in: the replay only asks
+    whether the free slot is recognised)"""
+    from types import SimpleNamespace as NS
+    from ebpfcat.bpf import MapType, create_map
+    from ebpfcat.ebpfcat import FastEtherCat
+    try:
+        ec = object.__new__(FastEtherCat)
+        ec.programs = create_map(MapType.PROG_ARRAY, 4, 4, 64)
+        ec.sync_groups = {}
+    except Exception as e:      # noqa
+        return {"inputs": None, "reproduced": None, "detail": f"no bpf() here: {e!r}"}
+    sg = NS(load=lambda: None, close=lambda: None, file_descriptor=-1)
+    try:
+        with ec.register_sync_group(sg):
+            out = "registered"
+    except KeyError as e:
+        out = f"KeyError({e}) from the lookup of the free slot"
+    except Exception as e:      # noqa
+        out = f"past the lookup ({type(e).__name__} for the stand-in program)"
+    return {"inputs": {"program table": "empty PROG_ARRAY of 64 slots (real kernel map)"},
+            "reproduced": out.startswith("KeyError"),
+            "detail": f"real FastEtherCat.register_sync_group: {out}"}
+
+
+def native_stop(name, conc, notes):
+    """the real run() of a slow group whose flag is cleared while every frame
+    times out (the bus delivers nothing any more)"""
+    from contextlib import asynccontextmanager
+    from ebpfcat.ebpfcat import SyncGroup
+    from ebpfcat.ethercat import MachineState, SyncManager
+    log = {"events": [], "open": 0}
+
+    class Term:
+        name = "a"
+
+        async def set_state(self, state):
+            log["events"].append(state.name)
+
+        async def to_operational(self, target=MachineState.OPERATIONAL):
+            pass
+
+        @asynccontextmanager
+        async def map_fmmu(self, logical, write):
+            log["open"] += 1
+            try:
+                yield 0
+            finally:
+                log["open"] -= 1
+
+    class EC:
+        ethertype = 0x88A4
+
+        def roundtrip_packet(self, data, index=None):
+            return asyncio.get_event_loop().create_future()      # never answered
+
+    async def go():
+        g = object.__new__(SyncGroup)
+        a = Term()
+        g.ec, g.devices, g.name = EC(), [], "group"
+        g.terminals = {a: True}
+        g.fmmu_maps = {a: {SyncManager.OUT: 0x1000}}
+        g.asm_packet, g.packet_index, g.cycletime = bytes(64), 7, 0.0
+        g.missed_counter, g.running = 0, True
+        g.update_devices = lambda data: data
+        task = asyncio.ensure_future(g.run())
+        await asyncio.sleep(0.05)
+        g.running = False
+        await asyncio.sleep(0.3)
+        done = task.done()
+        task.cancel()
+        try:
+            await task
+        except BaseException:      # noqa
+            pass
+        return done
+    import logging
+    logging.disable(logging.CRITICAL)
+    try:
+        done = asyncio.run(go())
+    finally:
+        logging.disable(logging.NOTSET)
+    return {"inputs": {"bus": "every frame times out", "flag cleared after": "0.05 s"}, "reproduced": not done,
+            "detail": f"real SyncGroupBase.run: 0.3 s after `running` was cleared the coroutine had "
+                      f"{'ended' if done else 'NOT ended (it keeps re-sending)'}; bus writes until then {log['events']}"}
+
+
 def native_wait(name, conc, notes):
     """the real wait_for_process with a real child process, cancelled while
     the child is still running"""
@@ -180,9 +268,12 @@ def run(tier, seed):
         ns = (0, 1, 2) if tier == "thorough" else (1, 2)
         for n in ns:
             api.verify(S.run_contract(SyncGroup, n), rep, replay=native_run)
+            if n == 1:
+                api.verify(S.run_stop_contract(), rep, replay=native_stop)
         api.verify(S.wait_for_process, rep, replay=native_wait)
         for n in (ns if tier == "thorough" else (1,)):
-            api.verify(S.fast_run_contract(n), rep, replay=native_run)
+            api.verify(S.fast_run_contract(n), rep,
+                       replay=lambda nm, i, nt: native_register(nm, i, nt) if "KeyError" in nm else native_run(nm, i, nt))
         rep.bound(f"SyncGroupBase.run is proved for groups of {ns} terminals (any read/write flags, any subset of "
                   f"FMMU mappings) - bounded in the number of terminals; every await is a cancellation point")
     finally:
